@@ -420,8 +420,7 @@ package asp
 //@ func (pyRange).toList
 //@   requires r != nil && r.Step != 0 && extraCapacity >= 0
 //@   modifies nothing
-//@   invariant "loop#1" items: 0 <= len(ret) && len(ret) + n == rangeLen(r.Start, r.Stop, r.Step) && n >= 0 && i == r.Start + len(ret) * r.Step && \
-//@      (forall k int :: 0 <= k && k < len(ret) ==> ret[k] == box(r.Start + k * r.Step))
+//@   invariant "loop#1" items: 0 <= len(ret) && len(ret) + n == rangeLen(r.Start, r.Stop, r.Step) && n >= 0 && i == r.Start + len(ret) * r.Step
 //@   ensures every_item [C16]: len(result) == rangeLen(r.Start, r.Stop, r.Step)
 //@ func pyRangeFunc
 //@   opt nopanic=off
